@@ -11,7 +11,10 @@ use super::{
     TSetIdentifier, TStructIdentifier, TType, ThriftException, ZERO_COPY_THRESHOLD,
     error::ProtocolExceptionKind,
     new_protocol_exception,
-    rw_ext::{ReadExt, WriteExt, checked_container_size, read_exact_to_vec, split_to_checked},
+    rw_ext::{
+        ReadExt, WriteExt, checked_container_size, non_negative_container_size, read_exact_to_vec,
+        split_to_checked,
+    },
 };
 
 const VERSION_LE: u32 = 0x88880000;
@@ -715,8 +718,8 @@ where
             .read_byte()
             .await
             .and_then(|n| Ok(field_type_from_u8(n)?))?;
-        let size = self.read_i32().await?;
-        Ok(TListIdentifier::new(element_type, size as usize))
+        let size = non_negative_container_size(self.read_i32().await?)?;
+        Ok(TListIdentifier::new(element_type, size))
     }
 
     #[inline]
@@ -730,8 +733,8 @@ where
             .read_byte()
             .await
             .and_then(|n| Ok(field_type_from_u8(n)?))?;
-        let size = self.read_i32().await?;
-        Ok(TSetIdentifier::new(element_type, size as usize))
+        let size = non_negative_container_size(self.read_i32().await?)?;
+        Ok(TSetIdentifier::new(element_type, size))
     }
 
     #[inline]
@@ -749,8 +752,8 @@ where
             .read_byte()
             .await
             .and_then(|n| Ok(field_type_from_u8(n)?))?;
-        let size = self.read_i32().await?;
-        Ok(TMapIdentifier::new(key_type, value_type, size as usize))
+        let size = non_negative_container_size(self.read_i32().await?)?;
+        Ok(TMapIdentifier::new(key_type, value_type, size))
     }
 
     #[inline]
